@@ -162,8 +162,8 @@ def _replay_s2(m):
     ep = m['epoch']
     farms = []
     for k in (1, 2):
-        kind = ['active', 'expired'][ch['k%d' % k]]
-        start, end = (1, 3) if kind == 'expired' else (ep - 1, ep + 5)
+        kind = S2_KINDS[ch['k%d' % k]]
+        start, end = (1, 3) if kind == 'expired' else ((ep - 3, ep) if kind == 'ended' else (ep - 1, ep + 5))
         farms.append(('m-old%d' % k, 'owner%d' % k, LP1, 'uusd', m['f%d_funded' % k], m['f%d_claimed' % k], 1, start, end))
     return {'now_s': m['now_s'], 'farms': farms, 'counters': {'farm': 3},
             'mints': [('farm_manager', [('uusd', m['fm_usd'])]), ('creator', [('uusd', m['reward']), ('uom', 1000)])],
@@ -189,6 +189,9 @@ def _replay_s4(m):
             'txs': [(who, _farm_msg('close', farm_identifier='m-x'), funds)]}
 
 
+S2_KINDS = ['active', 'expired', 'ended']
+
+
 def _existing_farm(I, ep, now, k, owner, kind):
     funded = I.sym('f%d_funded' % k, lo=1, hi=U128)
     claimed = I.sym('f%d_claimed' % k, hi=U128)
@@ -197,6 +200,11 @@ def _existing_farm(I, ep, now, k, owner, kind):
         # ended long ago: end epoch + expiration time passed (time consistent with the epoch, C18)
         I.assume(ep >= 60)
         start, end = 1, 3
+    elif kind == 'ended':
+        # past its end epoch but still inside the expiration window, budget left: NOT expired -- kept, not refunded, counts against the limit
+        I.assume(claimed < funded)
+        I.assume(ep >= 4)
+        start, end = simp(ep - 3), ep
     else:
         I.assume(claimed < funded)
         start, end = simp(ep - 1) if kind == 'active' else simp(ep + 1), simp(ep + 5)
@@ -208,13 +216,13 @@ def _existing_farm(I, ep, now, k, owner, kind):
 @obligation('C11', 'S2.create_closes_expired_and_respects_limit', entries=['execute', 'create_farm', 'is_farm_expired', 'close_farms', 'reply'], kind='S',
             statement='creating a farm when the LP token already has farms: expired ones are closed and refunded funded-claimed to THEIR owners; '
                       'afterwards the LP token has at most max_concurrent_farms unexpired farms (creation refused otherwise)',
-            bounds='2 existing farms, each active or expired (symbolic budgets), max_concurrent_farms = 2', covers=['ok', 'too_many'],
+            bounds='2 existing farms, each active / expired / ended but not yet expired (symbolic budgets), max_concurrent_farms = 2', covers=['ok', 'too_many'],
             replay=fm_replay(lambda m: _replay_s2(m)))
 def s2(I):
     I.set_hint(dict(HINT, epoch=100, now_s=100 * DAY + 5, start=101, end=111))
     now, ep, b = _world(I)
     fm_config(I, fee=coin_v('uom', 1000), max_concurrent=2)
-    kinds = [['active', 'expired'][I.choose(2, 'k%d' % k)] for k in (1, 2)]
+    kinds = [S2_KINDS[I.choose(len(S2_KINDS), 'k%d' % k)] for k in (1, 2)]
     budgets = [_existing_farm(I, ep, now, k, 'owner%d' % k, kinds[k - 1]) for k in (1, 2)]
     held = I.sym('fm_usd', hi=U128)
     I.assume(held >= sum((f - c) for f, c in budgets))
@@ -226,7 +234,7 @@ def s2(I):
     pre = b.snapshot()
     st, resp = ch.execute('creator', FM, manage_farm('Create', params=farm_params(LP1, coin_v('uusd', reward), simp(ep + 1), simp(ep + 11))),
                           [coin_v('uom', 1000), coin_v('uusd', reward)])
-    n_active = sum(1 for k in kinds if k == 'active')
+    n_active = sum(1 for k in kinds if k in ('active', 'ended'))
     I.observe('status', 'ok' if st == 'ok' else 'err')
     for fid in ('m-old1', 'm-old2', 'f-4'):
         observe_farm(I, fid)
